@@ -202,9 +202,12 @@ class Policy(object):
         self.allow_int_literals = {0}   # literals an I token may be compared with
         self.notes = []
 
-    def int_cmp(self, interp, a, b):
+    def int_cmp(self, interp, a, b, op="Cmp"):
         """Return (x, y) concrete representatives for comparing a and b, or raise."""
         ta, tb = isinstance(a, Tok), isinstance(b, Tok)
+        for t in (a, b):
+            if isinstance(t, Tok) and t.extra and t.extra.get("eq_only") and op not in ("Eq", "Ne"):
+                raise Inconclusive("order comparison %s on equality-only token %r" % (op, t), interp.where())
         if ta and tb:
             if a.kind != b.kind:
                 raise Inconclusive("comparison of tokens of different kinds %r %r" % (a, b), interp.where())
@@ -439,6 +442,8 @@ class Interp(object):
             return FnV(c)
         if k == "closure":
             return Clo(c["def"], ())
+        if k == "promoted":
+            return self.promoted(c["owner"], c["index"])
         if k == "zst":
             t = self.prog.types[c["ty"]]
             if t.get("k") == "closure":
@@ -447,6 +452,20 @@ class Interp(object):
                 return Adt(t["adt"], 0, ())
             return UNIT
         raise Inconclusive("constant %s" % c.get("s"), self.where())
+
+    def promoted(self, owner, index):
+        """evaluate a promoted constant by interpreting its MIR body (memoised per interpreter)"""
+        cache = self.__dict__.setdefault("_promoted", {})
+        k = (owner, index)
+        if k not in cache:
+            body = self.prog.body(owner)["promoted"][index]
+            frame = [Cell() for _ in body["locals"]]
+            self.stack.append([owner + "::promoted[%d]" % index, 0, body["span"]])
+            try:
+                cache[k] = self.run(owner + "::promoted", body, frame)
+            finally:
+                self.stack.pop()
+        return cache[k]
 
     def operand(self, frame, op):
         if "copy" in op:
@@ -469,7 +488,7 @@ class Interp(object):
         cmpops = ("Eq", "Ne", "Lt", "Le", "Gt", "Ge", "Cmp")
         if isinstance(a, Tok) or isinstance(b, Tok):
             if op in cmpops:
-                x, y = self.policy.int_cmp(self, a, b)
+                x, y = self.policy.int_cmp(self, a, b, op)
                 return self._cmp(op, x, y)
             if op in ("AddWithOverflow", "Add", "AddUnchecked") and isinstance(a, Tok) and a.kind == "I" \
                     and isinstance(b, int) and 0 <= b <= 2:
